@@ -47,6 +47,23 @@ ASSUMPTIONS = ["exceptions raised by testcases are RuntimeError, tbot.SkipExcept
 _batch = []
 
 
+def _prefetch_corpus():
+    """the runner replays corpus/C16 first, one case after the other; start the subprocesses of its
+    CLI cases now so that they run in parallel"""
+    import glob, os, sys
+    if "--replay" in sys.argv:
+        return
+    here = os.path.dirname(os.path.dirname(os.path.abspath(__file__)))
+    for path in sorted(glob.glob(os.path.join(here, "corpus", "C16", "*.case"))):
+        for line in open(path).read().split("\n"):
+            line = line.strip()
+            if line.startswith(("newbot ", "tbot ")) or line in ("newbot", "tbot"):
+                tcimpl.prefetch(line)
+
+
+_prefetch_corpus()
+
+
 def _fill(rng):
     lines = []
     for i in range(BATCH):
